@@ -83,7 +83,7 @@ LITERAL = {",", ":", "::", "=", "==", "(", ")", ")+", "-(", "@", "#", "@#", "%",
            ".align", ".repeat", ".link", ".end", ".once", ".extern", ".include", "insert_file", ".error", ".ident"}
 CARET_DELIMS = ["/", "|", "?", "$", ":"]
 CHARSET = [" ", "\t", "\n", ";", ",", ":", ".", "=", "(", ")", "<", ">", "{", "}", "^", "@", "#", "%", "'", '"', "/", "\\",
-           "+", "-", "*", "0", "8", "9", "a", "r", "α"]
+           "+", "-", "*", "0", "8", "9", "a", "r", "α", "\u0130", "\u212a", "\u0131", "\u017f"]
 
 # files that '.include' / 'insert_file' may name; materialised in a scratch directory by asm(fs=...)
 MAIN = "t.mac"
@@ -147,6 +147,9 @@ FAULTS = {
     "once-in-lazy-repeat": [".repeat or{i} {{ nop\n.once }}", "or{i} = 2"],
     "include-in-lazy-repeat": ['.repeat ir{i} {{ .include "inc1.mac" }}', "ir{i} = 2"],
     "rad50-digits-overflow": [".rad50 /ABC/<50>/99/"],
+    "caret-r-case-folding-character": [".word ^R\u0130", ".word ^Ra\u212a"],
+    "rad50-case-folding-character": [".rad50 /a\u0131/", ".rad50 /\ufb06/"],
+    "mnemonic-case-folding-character": ["\u017fob r0, ."],
 }
 
 NO_SPACE_BEFORE = {",", ":", "::", ")", ")+", "nl"}
